@@ -2,6 +2,7 @@ package openapi3
 
 import (
 	"context"
+	"net/url"
 	"path"
 	"strings"
 )
@@ -45,6 +46,10 @@ func DefaultRefNameResolver(doc *T, ref ComponentRef) string {
 		nameInRoot = strings.TrimPrefix(nameInRoot, "#")
 
 		rootCompURI := copyURI(doc.url)
+		if rootCompURI == nil {
+			// the root document was loaded from memory: it has no location
+			rootCompURI = new(url.URL)
+		}
 		rootCompURI.Fragment = nameInRoot
 		name = rootCompURI
 	}
@@ -137,7 +142,7 @@ func isExternalRef(ref string, parentIsExternal bool) bool {
 }
 
 func (doc *T) addSchemaToSpec(s *SchemaRef, refNameResolver RefNameResolver, parentIsExternal bool) bool {
-	if s == nil || !isExternalRef(s.Ref, parentIsExternal) {
+	if s == nil || s.Value == nil || !isExternalRef(s.Ref, parentIsExternal) {
 		return false
 	}
 
@@ -161,7 +166,7 @@ func (doc *T) addSchemaToSpec(s *SchemaRef, refNameResolver RefNameResolver, par
 }
 
 func (doc *T) addParameterToSpec(p *ParameterRef, refNameResolver RefNameResolver, parentIsExternal bool) bool {
-	if p == nil || !isExternalRef(p.Ref, parentIsExternal) {
+	if p == nil || p.Value == nil || !isExternalRef(p.Ref, parentIsExternal) {
 		return false
 	}
 	name := refNameResolver(doc, p)
@@ -184,7 +189,7 @@ func (doc *T) addParameterToSpec(p *ParameterRef, refNameResolver RefNameResolve
 }
 
 func (doc *T) addHeaderToSpec(h *HeaderRef, refNameResolver RefNameResolver, parentIsExternal bool) bool {
-	if h == nil || !isExternalRef(h.Ref, parentIsExternal) {
+	if h == nil || h.Value == nil || !isExternalRef(h.Ref, parentIsExternal) {
 		return false
 	}
 	name := refNameResolver(doc, h)
@@ -207,7 +212,7 @@ func (doc *T) addHeaderToSpec(h *HeaderRef, refNameResolver RefNameResolver, par
 }
 
 func (doc *T) addRequestBodyToSpec(r *RequestBodyRef, refNameResolver RefNameResolver, parentIsExternal bool) bool {
-	if r == nil || !isExternalRef(r.Ref, parentIsExternal) {
+	if r == nil || r.Value == nil || !isExternalRef(r.Ref, parentIsExternal) {
 		return false
 	}
 	name := refNameResolver(doc, r)
@@ -230,7 +235,7 @@ func (doc *T) addRequestBodyToSpec(r *RequestBodyRef, refNameResolver RefNameRes
 }
 
 func (doc *T) addResponseToSpec(r *ResponseRef, refNameResolver RefNameResolver, parentIsExternal bool) bool {
-	if r == nil || !isExternalRef(r.Ref, parentIsExternal) {
+	if r == nil || r.Value == nil || !isExternalRef(r.Ref, parentIsExternal) {
 		return false
 	}
 	name := refNameResolver(doc, r)
@@ -253,7 +258,7 @@ func (doc *T) addResponseToSpec(r *ResponseRef, refNameResolver RefNameResolver,
 }
 
 func (doc *T) addSecuritySchemeToSpec(ss *SecuritySchemeRef, refNameResolver RefNameResolver, parentIsExternal bool) {
-	if ss == nil || !isExternalRef(ss.Ref, parentIsExternal) {
+	if ss == nil || ss.Value == nil || !isExternalRef(ss.Ref, parentIsExternal) {
 		return
 	}
 	name := refNameResolver(doc, ss)
@@ -276,7 +281,7 @@ func (doc *T) addSecuritySchemeToSpec(ss *SecuritySchemeRef, refNameResolver Ref
 }
 
 func (doc *T) addExampleToSpec(e *ExampleRef, refNameResolver RefNameResolver, parentIsExternal bool) {
-	if e == nil || !isExternalRef(e.Ref, parentIsExternal) {
+	if e == nil || e.Value == nil || !isExternalRef(e.Ref, parentIsExternal) {
 		return
 	}
 	name := refNameResolver(doc, e)
@@ -299,7 +304,7 @@ func (doc *T) addExampleToSpec(e *ExampleRef, refNameResolver RefNameResolver, p
 }
 
 func (doc *T) addLinkToSpec(l *LinkRef, refNameResolver RefNameResolver, parentIsExternal bool) {
-	if l == nil || !isExternalRef(l.Ref, parentIsExternal) {
+	if l == nil || l.Value == nil || !isExternalRef(l.Ref, parentIsExternal) {
 		return
 	}
 	name := refNameResolver(doc, l)
@@ -322,7 +327,7 @@ func (doc *T) addLinkToSpec(l *LinkRef, refNameResolver RefNameResolver, parentI
 }
 
 func (doc *T) addCallbackToSpec(c *CallbackRef, refNameResolver RefNameResolver, parentIsExternal bool) bool {
-	if c == nil || !isExternalRef(c.Ref, parentIsExternal) {
+	if c == nil || c.Value == nil || !isExternalRef(c.Ref, parentIsExternal) {
 		return false
 	}
 	name := refNameResolver(doc, c)
@@ -377,7 +382,7 @@ func (doc *T) derefHeaders(hs Headers, refNameResolver RefNameResolver, parentIs
 	for _, name := range componentNames(hs) {
 		h := hs[name]
 		isExternal := doc.addHeaderToSpec(h, refNameResolver, parentIsExternal)
-		if doc.isVisitedHeader(h.Value) {
+		if h.Value == nil || doc.isVisitedHeader(h.Value) {
 			continue
 		}
 		doc.derefParameter(h.Value.Parameter, refNameResolver, parentIsExternal || isExternal)
@@ -400,8 +405,9 @@ func (doc *T) derefContent(c Content, refNameResolver RefNameResolver, parentIsE
 		}
 		doc.derefExamples(mediatype.Examples, refNameResolver, parentIsExternal)
 		for _, name := range componentNames(mediatype.Encoding) {
-			e := mediatype.Encoding[name]
-			doc.derefHeaders(e.Headers, refNameResolver, parentIsExternal)
+			if e := mediatype.Encoding[name]; e != nil {
+				doc.derefHeaders(e.Headers, refNameResolver, parentIsExternal)
+			}
 		}
 	}
 }
@@ -508,7 +514,7 @@ func (doc *T) InternalizeRefs(ctx context.Context, refNameResolver func(*T, Comp
 		for _, name := range componentNames(components.Schemas) {
 			schema := components.Schemas[name]
 			isExternal := doc.addSchemaToSpec(schema, refNameResolver, false)
-			if schema != nil {
+			if schema != nil && schema.Value != nil {
 				schema.Ref = "" // always dereference the top level
 				doc.derefSchema(schema.Value, refNameResolver, isExternal)
 			}
